@@ -1,16 +1,37 @@
+// Command child is the process that actually calls plenc. One invocation runs
+// one shard of one property's deterministic case list (or one witness).
 package main
 
 import (
+	"encoding/json"
 	"flag"
 	"fmt"
 	"os"
 
+	"verifharness/core"
 	"verifharness/wit"
+	_ "verifharness/work"
 )
 
 func main() {
-	witness := flag.String("witness", "", "run one witness by id")
+	var (
+		witness = flag.String("witness", "", "run one witness by id")
+		planF   = flag.Bool("plan", false, "print the plan of -prop for -tier")
+		prop    = flag.String("prop", "", "property id")
+		tier    = flag.String("tier", "quick", "quick|thorough")
+		seed    = flag.Int64("seed", 1, "seed")
+		lane    = flag.String("lane", "plain", "lane")
+		shard   = flag.Int("shard", 0, "shard")
+		nshards = flag.Int("nshards", 1, "number of shards")
+		cases   = flag.Int("cases", 0, "number of cases of the lane (all shards)")
+		from    = flag.Int("from", 0, "first case index to run")
+		only    = flag.Int("only", -1, "run only this case")
+		out     = flag.String("out", "", "result stream")
+		cursor  = flag.String("cursor", "", "cursor file")
+		verbose = flag.Bool("verbose", false, "print violations")
+	)
 	flag.Parse()
+
 	if *witness != "" {
 		w := wit.ByID(*witness)
 		if w == nil {
@@ -24,4 +45,57 @@ func main() {
 		fmt.Printf("WITNESS %s PASS\n", w.ID)
 		return
 	}
+
+	p := core.Get(*prop)
+	if p == nil {
+		fmt.Fprintf(os.Stderr, "unknown property %q (have %v)\n", *prop, core.IDs())
+		os.Exit(2)
+	}
+	if *planF {
+		js, _ := json.Marshal(map[string]any{
+			"property": p.ID, "lanes": p.Plan(*tier), "rule": p.Rule, "technique": p.Technique,
+			"assumptions": p.Assume, "exhaustive": p.Exhaustive,
+		})
+		os.Stdout.Write(js)
+		return
+	}
+
+	ctx := &core.Ctx{Prop: p, Tier: *tier, Lane: *lane, Seed: *seed, Shard: *shard, NShards: *nshards, Cases: *cases, Verbose: *verbose}
+	if *out == "" {
+		*out = "/dev/null"
+	}
+	rec, err := core.NewRecorder(*out, ctx)
+	if err != nil {
+		fmt.Fprintln(os.Stderr, err)
+		os.Exit(2)
+	}
+	ctx.Rec = rec
+	cur := core.OpenCursor(*cursor)
+	if p.Setup != nil {
+		p.Setup(ctx)
+	}
+	if *only >= 0 {
+		cur.Set(*only)
+		core.RunCase(ctx, *only)
+	} else {
+		if ctx.Cases == 0 {
+			for _, l := range p.Plan(*tier) {
+				if l.Lane == *lane {
+					ctx.Cases = l.Cases
+				}
+			}
+		}
+		for idx := *from; idx < ctx.Cases; idx++ {
+			if idx%ctx.NShards != ctx.Shard {
+				continue
+			}
+			cur.Set(idx)
+			core.RunCase(ctx, idx)
+		}
+		if p.Finish != nil {
+			ctx.Idx = -1
+			p.Finish(ctx)
+		}
+	}
+	rec.Close(true)
 }
